@@ -40,6 +40,12 @@ class Placer:
         self.n += 1
         ch = self.ch
         body = f"c{self.n} {kind}" + ch.choice(["", " note", " END", " LAYER x", " 'q'", " 100%", ' "dq', " caf\u00e9 \u8def", " ## x", " #! y", "  two  spaces", " back\\", " */ x" if False else " a*b", " [a] (b) {c}", " /path/x.map"])
+        if ch.chance(1, 4):
+            # any text may stand in a comment: a drawn string of any class (no line break, no comment terminator)
+            from .. import strings as _s
+
+            extra, _cls = _s.free_string(ch, multiline_ok=False)
+            body += " " + extra.replace("*/", "* /").replace("\n", " ")
         style = 0 if hash_only else ch.int(0, 3)
         if style <= 1:
             return ch.choice(["# ", "#", "## ", "#! "]) + body
